@@ -899,8 +899,8 @@ Proof.
 Qed.
 
 (* a writable wrap of an EMPTY image is refused *)
-Lemma writable_wrap_empty_refused d b :
-  (8 <= length d)%nat -> N.land (nth 3 d 0) 4 <> 0 -> wrap_filt d b true = None.
+Lemma writable_wrap_empty_refused wide d b :
+  (8 <= length d)%nat -> N.land (nth 3 d 0) 4 <> 0 -> wrap_filt wide d b true = None.
 Proof.
   intros Hl Hf. unfold wrap_filt, parse.
   destruct (Nat.ltb_spec (length d) 8); [reflexivity|].
@@ -966,13 +966,12 @@ Ltac peel :=
       end
   end.
 
-(* a valid configuration: what the public constructors produce, below 2^32 bits (the deserializer computes the capacity in
-   32 bits: num_longs << 6 on uint32_t) *)
+(* a valid configuration: what the public constructors produce (MAX_BITS < 2^35) *)
 Definition cfg_ok (f : filt) : Prop :=
-  f_nh f < 2 ^ 16 /\ f_seed f < 2 ^ 64 /\ f_cap f mod 64 = 0 /\ f_cap f <> 0 /\ f_cap f < 2 ^ 32.
+  f_nh f < 2 ^ 16 /\ f_seed f < 2 ^ 64 /\ f_cap f mod 64 = 0 /\ f_cap f <> 0 /\ f_cap f < 2 ^ 35.
 
-Lemma cap_shifts cap : cap mod 64 = 0 -> cap < 2 ^ 32 ->
-  N.shiftr cap 6 < 2 ^ 32 /\ w32 (N.shiftl (N.shiftr cap 6) 6) = cap /\
+Lemma cap_shifts cap : cap mod 64 = 0 -> cap < 2 ^ 35 ->
+  N.shiftr cap 6 < 2 ^ 32 /\ N.shiftl (N.shiftr cap 6) 6 = cap /\
   N.to_nat (w32 (N.shiftl (N.shiftr cap 6) 3)) = cap_bytes cap /\ round_cap cap = cap /\
   (8 * N.of_nat (cap_bytes cap) = cap).
 Proof.
@@ -981,16 +980,23 @@ Proof.
   change (2 ^ 6) with 64. change (2 ^ 3) with 8. change two32 with (2 ^ 32) in *.
   pose proof (N.div_mod cap 64 ltac:(discriminate)) as D. rewrite Hm in D.
   set (k := cap / 64) in *.
-  assert (Hk : k < 2 ^ 26). { change (2 ^ 32) with (64 * 2 ^ 26) in Hc. lia. }
+  assert (Hk : k < 2 ^ 29). { change (2 ^ 35) with (64 * 2 ^ 29) in Hc. lia. }
   assert (E8 : cap / 8 = k * 8).
   { replace cap with ((k * 8) * 8) by lia. now rewrite N.div_mul. }
-  change (2 ^ 26) with 67108864 in Hk. change (2 ^ 32) with 4294967296 in *.
-  split; [lia|]. split; [rewrite N.mod_small; lia|]. split; [rewrite N.mod_small by lia; now rewrite E8|].
+  change (2 ^ 29) with 536870912 in Hk. change (2 ^ 32) with 4294967296 in *. change (2 ^ 35) with 34359738368 in *.
+  split; [lia|]. split; [lia|]. split; [rewrite N.mod_small by lia; now rewrite E8|].
   split.
   - rewrite round_cap_spec by (change two64 with 18446744073709551616; lia).
     replace (cap + 63) with (k * 64 + 63) by lia. rewrite N.div_add_l by discriminate.
     change (63 / 64) with 0. lia.
   - rewrite E8, N2Nat.id. lia.
+Qed.
+
+(* below 2^32 bits the 32-bit computation of the old code gives the same capacity *)
+Lemma cap_shift32 cap : cap mod 64 = 0 -> cap < 2 ^ 32 -> w32 (N.shiftl (N.shiftr cap 6) 6) = cap.
+Proof.
+  intros Hm Hc. assert (Hc' : cap < 2 ^ 35) by (eapply N.lt_trans; [exact Hc|reflexivity]).
+  destruct (cap_shifts cap Hm Hc') as (_ & E & _). rewrite E, w32_mod. apply N.mod_small. exact Hc.
 Qed.
 
 Definition image (f : filt) (c bits : N) : list N :=
@@ -1007,7 +1013,7 @@ Qed.
 (* what the parser sees in a block that starts with a standard image (anything may follow) *)
 Lemma parse_image f c bits junk ro wrap stream :
   cfg_ok f -> c < 2 ^ 64 -> in_range bits (f_cap f) ->
-  parse (image f c bits ++ junk) ro wrap stream = PFull (f_cap f) (f_nh f) (f_seed f) c (cap_bytes (f_cap f)) /\
+  parse true (image f c bits ++ junk) ro wrap stream = PFull (f_cap f) (f_nh f) (f_seed f) c (cap_bytes (f_cap f)) /\
   rd (image f c bits ++ junk) 32 (cap_bytes (f_cap f)) = bits.
 Proof.
   intros (Hnh & Hseed & Hm & Hc0 & Hc) Hcc Hr.
@@ -1043,7 +1049,7 @@ Qed.
 (* deserialize(serialize f), from a byte block or a stream; anything may follow the image in the block *)
 Theorem deser_serialize f bits junk stream :
   cfg_ok f -> in_range bits (f_cap f) -> is_empty f = false -> ser_cnt f < 2 ^ 64 ->
-  deser_filt (serialize f bits ++ junk) stream =
+  deser_filt true (serialize f bits ++ junk) stream =
   Some (mkF (f_seed f) (f_nh f) (f_cap f) (N.eqb (ser_cnt f) DIRTY) false (ser_cnt f) None bits).
 Proof.
   intros Hc Hr He Hs. rewrite (serialize_nonempty _ _ He).
@@ -1054,7 +1060,7 @@ Qed.
 (* wrap / writable_wrap of a block holding serialize f: a view of block [b] *)
 Theorem wrap_serialize f bits junk b writable :
   cfg_ok f -> in_range bits (f_cap f) -> is_empty f = false -> ser_cnt f < 2 ^ 64 ->
-  wrap_filt (serialize f bits ++ junk) b writable =
+  wrap_filt true (serialize f bits ++ junk) b writable =
   Some (mkF (f_seed f) (f_nh f) (f_cap f) (N.eqb (ser_cnt f) DIRTY) (negb writable)
             (if negb writable && N.eqb (ser_cnt f) DIRTY then popcount bits else ser_cnt f) (Some b) 0).
 Proof.
@@ -1066,7 +1072,7 @@ Qed.
 (* the abstract views used by nfn_every_view ARE what the byte-level functions build *)
 Corollary deser_serialize_is_view s junk stream :
   cfg_ok (s_f s) -> in_range (s_bits s) (f_cap (s_f s)) -> is_empty (s_f s) = false -> ser_cnt (s_f s) < 2 ^ 64 ->
-  exists g, deser_filt (serialize (s_f s) (s_bits s) ++ junk) stream = Some g /\
+  exists g, deser_filt true (serialize (s_f s) (s_bits s) ++ junk) stream = Some g /\
             mkS g (f_bits g) (ser_cnt (s_f s)) = deser_view (ser_img s).
 Proof.
   intros Hc Hr He Hs. eexists. split; [now apply deser_serialize|]. reflexivity.
@@ -1074,7 +1080,7 @@ Qed.
 
 Corollary wrap_serialize_is_view s junk b writable :
   cfg_ok (s_f s) -> in_range (s_bits s) (f_cap (s_f s)) -> is_empty (s_f s) = false -> ser_cnt (s_f s) < 2 ^ 64 ->
-  exists g, wrap_filt (serialize (s_f s) (s_bits s) ++ junk) b writable = Some g /\
+  exists g, wrap_filt true (serialize (s_f s) (s_bits s) ++ junk) b writable = Some g /\
             f_mem g = Some b /\
             let v := wrap_view (ser_img s) (negb writable) in
             (f_seed g, f_nh g, f_cap g, f_dirty g, f_ro g, f_cnt g) =
@@ -1087,8 +1093,8 @@ Qed.
    configuration with the public constructor *)
 Lemma parse_empty_image f junk ro stream :
   cfg_ok f ->
-  parse (header (f_seed f) (f_nh f) (f_cap f) true ++ junk) ro false stream = PEmpty (f_cap f) (f_nh f) (f_seed f) /\
-  parse (header (f_seed f) (f_nh f) (f_cap f) true ++ junk) true true stream = PEmpty (f_cap f) (f_nh f) (f_seed f).
+  parse true (header (f_seed f) (f_nh f) (f_cap f) true ++ junk) ro false stream = PEmpty (f_cap f) (f_nh f) (f_seed f) /\
+  parse true (header (f_seed f) (f_nh f) (f_cap f) true ++ junk) true true stream = PEmpty (f_cap f) (f_nh f) (f_seed f).
 Proof.
   intros (Hnh & Hseed & Hm & Hc0 & Hc).
   destruct (cap_shifts _ Hm Hc) as (Hl & Hw & Hb & Hrc & H8).
@@ -1117,8 +1123,8 @@ Qed.
 
 Theorem deser_serialize_empty f bits junk stream :
   cfg_ok f -> f_nh f <> 0 -> f_cap f <= MAX_BITS -> is_empty f = true ->
-  deser_filt (serialize f bits ++ junk) stream = Some (mkF (f_seed f) (f_nh f) (f_cap f) false false 0 None 0) /\
-  wrap_filt (serialize f bits ++ junk) 0%Z false = Some (mkF (f_seed f) (f_nh f) (f_cap f) false false 0 None 0).
+  deser_filt true (serialize f bits ++ junk) stream = Some (mkF (f_seed f) (f_nh f) (f_cap f) false false 0 None 0) /\
+  wrap_filt true (serialize f bits ++ junk) 0%Z false = Some (mkF (f_seed f) (f_nh f) (f_cap f) false false 0 None 0).
 Proof.
   intros Hc Hn Hm He. unfold serialize. rewrite He, app_nil_r.
   destruct (parse_empty_image f junk false stream Hc) as [Hp _].
@@ -1141,8 +1147,8 @@ Theorem nfn_through_bytes (H : list N -> N -> N) s0 pre ins post x junk :
   inserts ins x -> Forall monotone post -> Forall (op_ok cap) (pre ++ ins :: post) ->
   let s := frun true idx (pre ++ ins :: post) s0 in
   let img := serialize (s_f s) (s_bits s) ++ junk in
-  (forall stream, exists g, deser_filt img stream = Some g /\ core_query g (f_bits g) (indices_of H g x) = true) /\
-  (forall b writable, exists g, wrap_filt img b writable = Some g /\
+  (forall stream, exists g, deser_filt true img stream = Some g /\ core_query g (f_bits g) (indices_of H g x) = true) /\
+  (forall b writable, exists g, wrap_filt true img b writable = Some g /\
                                 core_query g (rd img 32 (cap_bytes (f_cap g))) (indices_of H g x) = true).
 Proof.
   intros idx cap Hcfg Hn Hi Hro Hins Hpost Hok s img.
@@ -1185,4 +1191,821 @@ Proof.
     destruct (N.eqb_spec (ser_cnt (s_f s)) DIRTY) as [E|E].
     + cbn [negb andb]. exact Hall.
     + rewrite andb_false_r. rewrite (Hnz _ false Hcount); [exact Hall|]. symmetry. now apply N.eqb_neq.
+Qed.
+
+(* ------------------------------------------------------------------ *)
+(* the protocol step refines the object-level step: a writable view of caller memory *)
+(* ------------------------------------------------------------------ *)
+
+Lemma reg_get_set_same {A} (rs : list (Z * A)) r v : reg_get (reg_set rs r v) r = Some v.
+Proof. unfold reg_set. cbn [reg_get]. now rewrite Z.eqb_refl. Qed.
+
+Lemma wr_mid a m z v : wr (a ++ m ++ z) (length a) (length m) v = a ++ N_to_le_bytes (length m) v ++ z.
+Proof.
+  unfold wr. rewrite firstn_app, Nat.sub_diag, firstn_all. cbn [firstn]. rewrite app_nil_r.
+  f_equal. f_equal. rewrite skipn_app. rewrite (skipn_all2 a) by lia. cbn [app].
+  replace (length a + length m - length a)%nat with (length m) by lia.
+  rewrite skipn_app, skipn_all, Nat.sub_diag. reflexivity.
+Qed.
+
+Lemma image_eq f g c bits :
+  f_seed g = f_seed f -> f_nh g = f_nh f -> f_cap g = f_cap f -> image g c bits = image f c bits.
+Proof. unfold image. now intros -> -> ->. Qed.
+
+Lemma header_length seed nh cap e : length (header seed nh cap e) = 24%nat.
+Proof. unfold header. rewrite !app_length, !length_le_bytes. reflexivity. Qed.
+
+Lemma wr_image_count f c bits junk c1 : wr (image f c bits ++ junk) 24 8 c1 = image f c1 bits ++ junk.
+Proof.
+  unfold image. rewrite <- !app_assoc.
+  rewrite <- (header_length (f_seed f) (f_nh f) (f_cap f) false) at 1.
+  rewrite <- (length_le_bytes 8 c) at 2.
+  rewrite wr_mid. now rewrite length_le_bytes.
+Qed.
+
+Lemma wr_image_bits f c bits junk bits1 :
+  wr (image f c bits ++ junk) 32 (cap_bytes (f_cap f)) bits1 = image f c bits1 ++ junk.
+Proof.
+  unfold image. rewrite <- !app_assoc.
+  rewrite (app_assoc (header _ _ _ _) (N_to_le_bytes 8 c)).
+  replace 32%nat with (length (header (f_seed f) (f_nh f) (f_cap f) false ++ N_to_le_bytes 8 c))
+    by (rewrite app_length, header_length, length_le_bytes; reflexivity).
+  rewrite <- (length_le_bytes (cap_bytes (f_cap f)) bits) at 2.
+  rewrite wr_mid. rewrite length_le_bytes. now rewrite <- !app_assoc.
+Qed.
+
+Lemma rd_image_bits f c bits junk :
+  cfg_ok f -> c < 2 ^ 64 -> in_range bits (f_cap f) -> rd (image f c bits ++ junk) 32 (cap_bytes (f_cap f)) = bits.
+Proof. intros. now apply (parse_image f c bits junk false false false). Qed.
+
+Lemma rd_image_count f c bits junk :
+  cfg_ok f -> c < 2 ^ 64 -> in_range bits (f_cap f) -> rd (image f c bits ++ junk) 24 8 = c.
+Proof.
+  intros Hc Hcc Hr.
+  unfold image, header. rewrite <- !app_assoc. peel. rewrite rd_head. now apply le_of_le.
+Qed.
+
+(* register [r] of world [w] is a writable view of block [b]; the block holds the standard image of the object
+   [s] = (cached fields, bit array, stored count) followed by [junk] *)
+Definition view_at (w : world) (r b : Z) (s : cst) (junk : list N) : Prop :=
+  exists fe be,
+    reg_get (w_f w) r = Some fe /\ e_f fe = s_f s /\ f_mem (s_f s) = Some b /\
+    reg_get (w_b w) b = Some be /\ b_data be = image (s_f s) (s_mcnt s) (s_bits s) ++ junk.
+
+(* the object is in good shape: valid configuration, sound cache, consistent stored count *)
+Definition good (s : cst) : Prop :=
+  cfg_ok (s_f s) /\ f_ro (s_f s) = false /\ inv (f_cap (s_f s)) s /\ minv s /\ s_mcnt s < 2 ^ 64.
+
+Lemma bits_of_view w r b s junk :
+  view_at w r b s junk -> good s -> bits_of w (s_f s) = s_bits s.
+Proof.
+  intros (fe & be & _ & _ & Hm & Hb & Hd) (Hc & _ & (_ & Hr & _) & _ & Hcc).
+  unfold bits_of. rewrite Hm, Hb, Hd. now apply rd_image_bits.
+Qed.
+
+(* an effect that keeps the fixed fields *)
+Definition eff_ok (s : cst) (e : eff) : Prop :=
+  fixed_fields (s_f s) (x_f e) /\ (f_bits (x_f e) = f_bits (s_f s)).
+
+Lemma commit_view w r b s junk e :
+  view_at w r b s junk -> eff_ok s e ->
+  exists be be1, reg_get (w_b w) b = Some be /\
+    commit w e = (x_f e, reg_set (w_b w) b be1) /\
+    b_data be1 = image (x_f e) (s_mcnt (apply_eff s e)) (x_bits e) ++ junk /\
+    b_epoch be1 = b_epoch be /\ b_gen be1 = b_gen be /\ b_mut be1 = b_mut be.
+Proof.
+  intros (fe & be & Hr & Hf & Hm & Hb & Hd) ((F1 & F2 & F3 & F4 & F5) & _).
+  exists be. unfold commit. rewrite F5, Hm, Hb, F3, Hd.
+  eexists. split; [reflexivity|]. split; [reflexivity|]. cbn [b_data b_epoch b_gen b_mut].
+  split; [|now repeat split].
+  rewrite wr_image_bits. unfold apply_eff. cbn [s_mcnt].
+  rewrite (image_eq (s_f s) (x_f e)) by assumption.
+  destruct (x_memw e) as [c1|]; [now rewrite wr_image_count|reflexivity].
+Qed.
+
+Lemma buf_upd_data bs b be g :
+  reg_get bs b = Some be -> (forall x, b_data (g x) = b_data x) ->
+  exists be', reg_get (buf_upd bs b g) b = Some be' /\ b_data be' = b_data be.
+Proof.
+  intros Hb Hg. unfold buf_upd. rewrite Hb. exists (g be). split; [apply reg_get_set_same|apply Hg].
+Qed.
+
+Lemma ghost_grow_view bs fe f' b be1 add code hz rc :
+  f_mem f' = Some b -> reg_get bs b = Some be1 ->
+  exists fe' be', ghost_grow bs fe f' add code hz rc = (fe', snd (ghost_grow bs fe f' add code hz rc)) /\
+    e_f fe' = f' /\ reg_get (snd (ghost_grow bs fe f' add code hz rc)) b = Some be' /\ b_data be' = b_data be1.
+Proof.
+  intros Hm Hb. unfold ghost_grow. rewrite Hm.
+  destruct (Z.eqb (e_gen fe) (buf_gen bs b)).
+  - destruct (buf_upd_data bs b be1
+      (fun be => mkBE (b_data be)
+         (b_must be ++ (if (Z.eqb (e_seen fe) (buf_mut bs b) || rc)%bool then add else []))
+         (b_epoch be)
+         (flag (hmax (b_haz be) hz) code (incons_b be (bits_of (mkW [] bs) f'))) (b_gen be) (buf_mut bs b + 1)%Z) Hb
+      (fun _ => eq_refl)) as (be' & G1 & G2).
+    eexists. exists be'. cbn [snd fst e_f]. repeat split; assumption.
+  - destruct (buf_upd_data bs b be1
+      (fun be => mkBE (b_data be) [] (b_epoch be + 1)%Z 0%Z (b_gen be) (buf_mut bs b + 1)%Z) Hb (fun _ => eq_refl))
+      as (be' & G1 & G2).
+    eexists. exists be'. cbn [snd fst e_f]. repeat split; assumption.
+Qed.
+
+Lemma ghost_clear_view bs fe f' b be1 code :
+  f_mem f' = Some b -> reg_get bs b = Some be1 ->
+  exists fe' be', ghost_clear bs fe f' code = (fe', snd (ghost_clear bs fe f' code)) /\
+    e_f fe' = f' /\ reg_get (snd (ghost_clear bs fe f' code)) b = Some be' /\ b_data be' = b_data be1.
+Proof.
+  intros Hm Hb. unfold ghost_clear. rewrite Hm.
+  destruct (buf_upd_data bs b be1
+      (fun be => mkBE (b_data be) [] (buf_epoch bs b + 1)%Z
+                      (if Z.eqb (e_gen fe) (b_gen be) then flag 0%Z code (incons_b be (bits_of (mkW [] bs) f')) else 0%Z)
+                      (b_gen be) (buf_mut bs b + 1)%Z) Hb (fun _ => eq_refl)) as (be' & G1 & G2).
+  eexists. exists be'. cbn [snd fst e_f]. repeat split; assumption.
+Qed.
+
+(* a successful write through the view: the world afterwards holds the object-level result *)
+Lemma fin_grow_view w r b s junk fe e add code hz rc out :
+  view_at w r b s junk -> reg_get (w_f w) r = Some fe -> eff_ok s e ->
+  view_at (fst (fin_grow w r fe e add code hz rc out)) r b (apply_eff s e) junk /\
+  snd (fin_grow w r fe e add code hz rc out) = out.
+Proof.
+  intros Hv Hr He.
+  destruct (commit_view w r b s junk e Hv He) as (be & be1 & Hb & Hc & Hd & _).
+  unfold fin_grow. rewrite Hc.
+  assert (Hm : f_mem (x_f e) = Some b).
+  { destruct Hv as (_ & _ & _ & _ & Hm & _). destruct He as ((_ & _ & _ & _ & F5) & _). congruence. }
+  destruct (ghost_grow_view (reg_set (w_b w) b be1) fe (x_f e) b be1 add code hz rc Hm (reg_get_set_same _ _ _))
+    as (fe' & be' & G0 & G1 & G2 & G3).
+  rewrite G0. cbn [fst snd]. split; [|reflexivity].
+  exists fe', be'. cbn [w_f w_b]. split; [apply reg_get_set_same|].
+  split; [exact G1|]. split; [exact Hm|]. split; [exact G2|]. rewrite G3, Hd. reflexivity.
+Qed.
+
+Lemma fin_clear_view w r b s junk fe e out :
+  view_at w r b s junk -> reg_get (w_f w) r = Some fe -> eff_ok s e ->
+  view_at (fst (fin_clear w r fe e out)) r b (apply_eff s e) junk /\
+  snd (fin_clear w r fe e out) = out.
+Proof.
+  intros Hv Hr He.
+  destruct (commit_view w r b s junk e Hv He) as (be & be1 & Hb & Hc & Hd & _).
+  unfold fin_clear. rewrite Hc.
+  assert (Hm : f_mem (x_f e) = Some b).
+  { destruct Hv as (_ & _ & _ & _ & Hm & _). destruct He as ((_ & _ & _ & _ & F5) & _). congruence. }
+  destruct (ghost_clear_view (reg_set (w_b w) b be1) fe (x_f e) b be1 3%Z Hm (reg_get_set_same _ _ _))
+    as (fe' & be' & G0 & G1 & G2 & G3).
+  rewrite G0. cbn [fst snd]. split; [|reflexivity].
+  exists fe', be'. cbn [w_f w_b]. split; [apply reg_get_set_same|].
+  split; [exact G1|]. split; [exact Hm|]. split; [exact G2|]. rewrite G3, Hd. reflexivity.
+Qed.
+
+(* operations addressed to the view's own register *)
+Inductive lop := LUpdate (x : item) | LQau (x : item) | LQuery (x : item) | LInvert | LReset | LBitsUsed.
+
+Definition lop_wop (r : Z) (o : lop) : wop :=
+  match o with
+  | LUpdate x => OUpdate r x | LQau x => OQau r x | LQuery x => OQuery r x
+  | LInvert => OInvert r | LReset => OReset r | LBitsUsed => OBitsUsed r
+  end.
+Definition lop_fop (o : lop) : list fop :=
+  match o with
+  | LUpdate x => [FUpdate x] | LQau x => [FQau x] | LQuery _ => []
+  | LInvert => [FInvert] | LReset => [FReset] | LBitsUsed => [FBitsUsed]
+  end.
+(* the public API ignores empty items before anything else *)
+Definition lop_ok (o : lop) : Prop := match o with LUpdate x | LQau x | LQuery x => x <> [] | _ => True end.
+
+Lemma good_fstep idx s op :
+  (forall x i, In i (idx x) -> i < f_cap (s_f s)) -> good s -> f_mem (s_f s) <> None ->
+  match op with FUnion _ | FIntersect _ => False | _ => True end ->
+  good (fstep true idx s op).
+Proof.
+  intros Hidx (Hc & Hro & Hi & Hm & Hcc) Hmem Hop.
+  destruct (fstep_fixed true idx s op) as (F1 & F2 & F3 & F4 & F5).
+  assert (Hc64 : f_cap (s_f s) < two64).
+  { destruct Hc as (_ & _ & _ & _ & Hc). eapply N.lt_trans; [exact Hc|reflexivity]. }
+  assert (Hok : op_ok (f_cap (s_f s)) op) by (destruct op; try exact I; contradiction).
+  assert (Hi' : inv (f_cap (s_f s)) (fstep true idx s op)).
+  { apply (inv_fstep true idx (f_cap (s_f s)) Hc64 Hidx); [assumption|assumption|now left]. }
+  assert (Hm' : minv (fstep true idx s op)).
+  { apply (minv_fstep_fixed true idx (f_cap (s_f s)) Hc64 Hidx); try assumption; [reflexivity|now split]. }
+  assert (Hc' : cfg_ok (s_f (fstep true idx s op))) by (unfold cfg_ok in *; now rewrite F1, F2, F3).
+  assert (Hro' : f_ro (s_f (fstep true idx s op)) = false) by congruence.
+  assert (Hcc' : s_mcnt (fstep true idx s op) < 2 ^ 64).
+  { destruct Hm' as [[E|E] _]; rewrite E; [reflexivity|].
+    destruct Hi' as (_ & Hr & _). eapply N.le_lt_trans; [apply (in_range_popcount _ _ Hr)|exact Hc64]. }
+  unfold good. rewrite F3. split; [exact Hc'|]. split; [exact Hro'|]. split; [exact Hi'|]. split; [exact Hm'|exact Hcc'].
+Qed.
+
+Section Bridge.
+  Variable H : list N -> N -> N.
+
+  Lemma wstep_local w r b s junk o :
+    view_at w r b s junk -> good s -> lop_ok o ->
+    view_at (fst (wstep true H w (lop_wop r o))) r b (frun true (indices_of H (s_f s)) (lop_fop o) s) junk.
+  Proof.
+    intros Hv Hg Hok.
+    pose proof (bits_of_view w r b s junk Hv Hg) as Hbits.
+    destruct Hv as (fe & be & Hr & Hf & Hm & Hb & Hd).
+    assert (Hv : view_at w r b s junk) by (exists fe, be; repeat split; assumption).
+    destruct Hg as (Hc & Hro & Hi & Hmi & Hcc).
+    destruct o as [x|x|x| | |]; cbn [lop_wop lop_fop frun fold_left fstep lop_ok] in *; unfold wstep; rewrite Hr, Hf.
+    - destruct x as [|x0 xt]; [congruence|]. rewrite Hbits.
+      unfold core_update. rewrite Hro.
+      apply fin_grow_view; try assumption. split; [apply fixed_cache|reflexivity].
+    - destruct x as [|x0 xt]; [congruence|]. rewrite Hbits.
+      destruct (core_qau true (s_f s) (s_bits s) (indices_of H (s_f s) (x0 :: xt))) as [[e ex]|] eqn:Eq.
+      + apply fin_grow_view; try assumption.
+        unfold core_qau in Eq. rewrite Hro in Eq.
+        destruct (qau_loop (indices_of H (s_f s) (x0 :: xt)) (s_bits s) (f_cnt (s_f s)) true) as [[b' c'] e'].
+        destruct (indices_of H (s_f s) (x0 :: xt)); [injection Eq as <- _; split; [apply fixed_refl|reflexivity]|].
+        destruct (true && f_dirty (s_f s)); injection Eq as <- _; (split; [first [apply fixed_refl|apply fixed_cache]|reflexivity]).
+      + cbn [fst]. exact Hv.
+    - destruct x as [|x0 xt]; [congruence|]. cbn [fst]. exact Hv.
+    - rewrite Hbits. unfold core_invert. rewrite Hro. cbn [andb].
+      apply fin_clear_view; try assumption. split; [apply fixed_cache|reflexivity].
+    - unfold core_reset. rewrite Hro.
+      apply fin_clear_view; try assumption. split; [apply fixed_cache|reflexivity].
+    - rewrite Hbits. cbn [fst].
+      exists (mkFE (core_bits_used (s_f s) (s_bits s)) (e_must fe) (e_epoch fe) (e_haz fe) (e_gen fe)
+                   (match f_mem (s_f s) with
+                    | Some b0 => if f_dirty (s_f s) then buf_mut (w_b w) b0 else e_seen fe
+                    | None => e_seen fe
+                    end)), be.
+      cbn [w_f w_b e_f s_f s_bits s_mcnt]. split; [apply reg_get_set_same|]. split; [reflexivity|].
+      assert (E : forall f bits, f_mem (core_bits_used f bits) = f_mem f /\
+                                 image (core_bits_used f bits) = image f).
+      { intros f bits. unfold core_bits_used. destruct (f_dirty f); split; reflexivity. }
+      destruct (E (s_f s) (s_bits s)) as [E1 E2]. rewrite E1, E2. repeat split; assumption.
+  Qed.
+End Bridge.
+
+Section Bridge2.
+  Variable H : list N -> N -> N.
+
+  Definition wrunL (r : Z) (ops : list lop) (w : world) : world :=
+    fold_left (fun w o => fst (wstep true H w (lop_wop r o))) ops w.
+  Definition lfops (ops : list lop) : list fop := concat (map lop_fop ops).
+
+  Lemma indices_of_fixed f g :
+    f_seed g = f_seed f -> f_nh g = f_nh f -> f_cap g = f_cap f -> indices_of H g = indices_of H f.
+  Proof. unfold indices_of. now intros -> -> ->. Qed.
+
+  Lemma lop_fop_plain o : Forall (fun op => match op with FUnion _ | FIntersect _ => False | _ => True end) (lop_fop o).
+  Proof. destruct o; repeat constructor. Qed.
+
+  Lemma good_frun_local idx s o :
+    (forall x i, In i (idx x) -> i < f_cap (s_f s)) -> good s -> f_mem (s_f s) <> None ->
+    good (frun true idx (lop_fop o) s).
+  Proof.
+    intros Hidx Hg Hm. destruct o; cbn [lop_fop frun fold_left]; try (apply good_fstep; try assumption; exact I).
+    exact Hg.
+  Qed.
+
+  Lemma wrun_local r b junk ops : forall w s,
+    view_at w r b s junk -> good s -> Forall lop_ok ops ->
+    view_at (wrunL r ops w) r b (frun true (indices_of H (s_f s)) (lfops ops) s) junk /\
+    good (frun true (indices_of H (s_f s)) (lfops ops) s).
+  Proof.
+    induction ops as [|o t IH]; intros w s Hv Hg Hok; [now split|].
+    inversion Hok as [|? ? Ho Ht]; subst.
+    unfold wrunL, lfops. cbn [fold_left map concat]. rewrite frun_app.
+    fold (wrunL r t (fst (wstep true H w (lop_wop r o)))). fold (lfops t).
+    set (idx := indices_of H (s_f s)).
+    set (s1 := frun true idx (lop_fop o) s).
+    assert (Hm : f_mem (s_f s) <> None) by (destruct Hv as (_ & _ & _ & _ & Hm & _); congruence).
+    assert (Hidx : forall x i, In i (idx x) -> i < f_cap (s_f s)).
+    { intros x i. apply indices_lt. apply Hg. }
+    assert (Hg1 : good s1) by (apply good_frun_local; assumption).
+    assert (Hv1 : view_at (fst (wstep true H w (lop_wop r o))) r b s1 junk) by (apply wstep_local; assumption).
+    destruct (frun_fixed true idx (lop_fop o) s) as (F1 & F2 & F3 & _). fold s1 in F1, F2, F3.
+    assert (E : indices_of H (s_f s1) = idx) by (apply indices_of_fixed; assumption).
+    specialize (IH _ s1 Hv1 Hg1 Ht). rewrite E in IH. exact IH.
+  Qed.
+
+  (* what wrap / writable_wrap / deserialize build from a block that holds the image of [s] *)
+  Lemma wrap_image s junk b writable :
+    good s -> f_mem (s_f s) = Some b ->
+    wrap_filt true (image (s_f s) (s_mcnt s) (s_bits s) ++ junk) b writable = Some (s_f (wrap_view s (negb writable))).
+  Proof.
+    intros (Hc & _ & (_ & Hr & _) & _ & Hcc) Hm.
+    destruct (parse_image (s_f s) (s_mcnt s) (s_bits s) junk (negb writable) true false Hc Hcc Hr) as [Hp Hb].
+    unfold wrap_filt. rewrite Hp, Hb. unfold wrap_view. cbn [s_f]. now rewrite Hm.
+  Qed.
+
+  Lemma deser_image s junk stream :
+    good s ->
+    deser_filt true (image (s_f s) (s_mcnt s) (s_bits s) ++ junk) stream =
+    Some (f_setbits (s_f (deser_view s)) (s_bits s)).
+  Proof.
+    intros (Hc & _ & (_ & Hr & _) & _ & Hcc).
+    destruct (parse_image (s_f s) (s_mcnt s) (s_bits s) junk false false stream Hc Hcc Hr) as [Hp Hb].
+    unfold deser_filt. rewrite Hp, Hb. reflexivity.
+  Qed.
+
+  Definition lmonotone (o : lop) : Prop := match o with LInvert | LReset => False | _ => True end.
+  Definition linserts (o : lop) (x : item) : Prop := o = LUpdate x \/ o = LQau x.
+
+  Lemma lfops_app a b : lfops (a ++ b) = lfops a ++ lfops b.
+  Proof. unfold lfops. now rewrite map_app, concat_app. Qed.
+
+  Lemma lfops_monotone ops : Forall lmonotone ops -> Forall monotone (lfops ops).
+  Proof.
+    induction 1 as [|o t Ho _ IH]; [constructor|].
+    change (lfops (o :: t)) with (lop_fop o ++ lfops t). apply Forall_app. split; [|exact IH].
+    destruct o; cbn in Ho |- *; try contradiction; repeat constructor.
+  Qed.
+
+  Lemma lfops_op_ok cap ops : Forall (op_ok cap) (lfops ops).
+  Proof.
+    induction ops as [|o t IH]; [constructor|].
+    change (lfops (o :: t)) with (lop_fop o ++ lfops t). apply Forall_app. split; [|exact IH].
+    destruct o; repeat constructor.
+  Qed.
+
+  (* PROTOCOL-LEVEL no false negative for a filter in caller memory: register [r] is a writable view of block [b]
+     (as built by builder::initialize_by_size, see init_view below); after ANY history of operations through that view with an
+     insertion of x and no invert / reset after it, the extracted step function answers 1 to query(x) through the view,
+     through a FRESH read-only or writable wrap of the block into any register, and through deserialize of the block *)
+  Theorem world_nfn_memory w r b s junk pre ins post x :
+    view_at w r b s junk -> good s -> f_nh (s_f s) <> 0 ->
+    Forall lop_ok (pre ++ ins :: post) -> linserts ins x -> Forall lmonotone post ->
+    let w1 := wrunL r (pre ++ ins :: post) w in
+    fst (snd (wstep true H w1 (OQuery r x))) = [1%Z] /\
+    (forall r2 writable,
+       fst (snd (wstep true H w1 (OWrap r2 b writable))) = ok /\
+       fst (snd (wstep true H (fst (wstep true H w1 (OWrap r2 b writable))) (OQuery r2 x))) = [1%Z]) /\
+    (forall r2 stream,
+       fst (snd (wstep true H w1 (ODeser r2 b stream))) = ok /\
+       fst (snd (wstep true H (fst (wstep true H w1 (ODeser r2 b stream))) (OQuery r2 x))) = [1%Z]).
+  Proof.
+    intros Hv Hg Hn Hok Hins Hpost w1.
+    set (idx := indices_of H (s_f s)). set (cap := f_cap (s_f s)).
+    destruct (wrun_local r b junk (pre ++ ins :: post) w s Hv Hg Hok) as [Hv1 Hg1].
+    fold w1 idx in Hv1, Hg1. rewrite lfops_app in Hv1, Hg1.
+    change (lfops (ins :: post)) with (lop_fop ins ++ lfops post) in Hv1, Hg1.
+    assert (Hx : x <> []).
+    { apply Forall_app in Hok. destruct Hok as [_ Hok]. inversion Hok as [|? ? Ho _]; subst.
+      destruct Hins as [-> | ->]; exact Ho. }
+    assert (Hfi : exists fi, lop_fop ins = [fi] /\ inserts fi x).
+    { destruct Hins as [-> | ->]; eexists; (split; [reflexivity|]); [now left|now right]. }
+    destruct Hfi as (fi & Efi & Hfi). rewrite Efi in Hv1, Hg1. cbn [app] in Hv1, Hg1.
+    set (s1 := frun true idx (lfops pre ++ fi :: lfops post) s) in *.
+    assert (Hc64 : cap < two64).
+    { destruct Hg as ((_ & _ & _ & _ & Hc) & _). eapply N.lt_trans; [exact Hc|reflexivity]. }
+    assert (Hidx : forall y i, In i (idx y) -> i < cap) by (intros y i; apply indices_lt; apply Hg).
+    assert (Hne : idx x <> []) by now apply indices_nonempty.
+    assert (Hall : forall v, view_of idx cap s1 v -> squery idx v x = true).
+    { intros v Hvw. apply (nfn_every_view idx cap Hc64 Hidx s (lfops pre) fi (lfops post) x v); try assumption.
+      - apply Hg.
+      - apply Hg.
+      - now apply lfops_monotone.
+      - rewrite <- (app_nil_l (lfops post)). change (fi :: [] ++ lfops post) with ([fi] ++ lfops post).
+        rewrite <- Efi. change (lop_fop ins ++ lfops post) with (lfops (ins :: post)). rewrite <- lfops_app.
+        apply lfops_op_ok. }
+    destruct (frun_fixed true idx (lfops pre ++ fi :: lfops post) s) as (F1 & F2 & F3 & F4 & F5). fold s1 in F1, F2, F3, F4, F5.
+    assert (Eidx : forall g, f_seed g = f_seed (s_f s1) -> f_nh g = f_nh (s_f s1) -> f_cap g = f_cap (s_f s1) ->
+                             indices_of H g = idx).
+    { intros g A B C. apply indices_of_fixed; congruence. }
+    pose proof (bits_of_view w1 r b s1 junk Hv1 Hg1) as Hbits.
+    destruct Hv1 as (fe & be & Hr & Hf & Hm & Hb & Hd).
+    assert (Hw : is_wview s1) by (split; [congruence|apply Hg1]).
+    assert (Hmi : minv s1) by apply Hg1.
+    split; [|split].
+    - unfold wstep. rewrite Hr. destruct x as [|x0 xt]; [congruence|]. cbn [fst snd].
+      rewrite Hf, Hbits, (Eidx (s_f s1)) by reflexivity.
+      change (core_query (s_f s1) (s_bits s1) (idx (x0 :: xt))) with (squery idx s1 (x0 :: xt)).
+      rewrite (Hall s1); [reflexivity|]. now apply V_copy.
+    - intros r2 writable. unfold wstep at 1 3. rewrite Hb, Hd, (wrap_image s1 junk b writable Hg1 Hm).
+      assert (Hvw : is_view (s_f (wrap_view s1 (negb writable))) = true).
+      { unfold is_view, wrap_view. cbn [s_f f_mem]. now rewrite Hm. }
+      rewrite Hvw. cbn [fst snd]. split; [reflexivity|].
+      unfold wstep. cbn [w_f w_b]. rewrite reg_get_set_same. destruct x as [|x0 xt]; [congruence|]. cbn [fst snd e_f].
+      rewrite (Eidx (s_f (wrap_view s1 (negb writable)))) by reflexivity.
+      assert (Eb : bits_of (mkW (reg_set (w_f w1) r2
+                      (mkFE (s_f (wrap_view s1 (negb writable))) (b_must be) (b_epoch be) (b_haz be) (b_gen be) (b_mut be)))
+                      (w_b w1)) (s_f (wrap_view s1 (negb writable))) = s_bits s1).
+      { unfold bits_of. cbn [w_b]. unfold wrap_view at 1 2. cbn [s_f f_mem f_cap]. rewrite Hm, Hb, Hd.
+        apply rd_image_bits; apply Hg1. }
+      rewrite Eb.
+      change (core_query (s_f (wrap_view s1 (negb writable))) (s_bits s1) (idx (x0 :: xt)))
+        with (squery idx (wrap_view s1 (negb writable)) (x0 :: xt)).
+      rewrite (Hall (wrap_view s1 (negb writable))); [reflexivity|]. now apply V_memwrap.
+    - intros r2 stream. unfold wstep at 1 3. rewrite Hb, Hd, (deser_image s1 junk stream Hg1).
+      cbn [fst snd]. split; [reflexivity|].
+      unfold wstep. cbn [w_f w_b]. rewrite reg_get_set_same. destruct x as [|x0 xt]; [congruence|]. cbn [fst snd e_f].
+      rewrite (Eidx (f_setbits (s_f (deser_view s1)) (s_bits s1))) by reflexivity.
+      unfold bits_of. cbn [f_setbits f_mem deser_view s_f f_bits].
+      change (core_query _ (s_bits s1) (idx (x0 :: xt)))
+        with (squery idx (deser_view s1) (x0 :: xt)).
+      rewrite (Hall (deser_view s1)); [reflexivity|]. now apply V_memdes.
+  Qed.
+End Bridge2.
+
+(* builder::initialize_by_size over a block: the constructor's image is the standard image of the fresh object *)
+Lemma le_bytes_zero n : N_to_le_bytes n 0 = repeat 0 n.
+Proof.
+  induction n as [|n IH]; [reflexivity|]. cbn [N_to_le_bytes repeat].
+  change (N.shiftr 0 8) with 0. change (w8 0) with 0. now rewrite IH.
+Qed.
+
+Lemma init_image_eq seed nh cap mem :
+  cap mod 64 = 0 -> init_image seed nh cap = image (mkF seed nh cap false false 0 mem 0) 0 0.
+Proof.
+  intros Hm. unfold init_image, image. cbn [f_seed f_nh f_cap]. f_equal.
+  rewrite !le_bytes_zero, <- repeat_app. f_equal.
+  unfold cap_bytes. rewrite !N.shiftr_div_pow2. change (2 ^ 6) with 64. change (2 ^ 3) with 8.
+  pose proof (N.div_mod cap 64 ltac:(discriminate)) as D. rewrite Hm in D.
+  set (q := cap / 64) in *.
+  assert (E : cap / 8 = 8 * q). { replace cap with ((q * 8) * 8) by lia. rewrite N.div_mul by discriminate. lia. }
+  rewrite E, N2Nat.inj_mul. change (N.to_nat 8) with 8%nat. lia.
+Qed.
+
+Section Bridge3.
+  Variable H : list N -> N -> N.
+
+  Lemma init_view w r b be nbits nh seed :
+    reg_get (w_b w) b = Some be -> ctor_ok nbits nh = true ->
+    size_for (round_cap nbits) <= N.of_nat (length (b_data be)) -> nh < 2 ^ 16 -> seed < 2 ^ 64 ->
+    let s0 := mkS (mkF seed nh (round_cap nbits) false false 0 (Some b) 0) 0 0 in
+    fst (snd (wstep true H w (OInit r b nbits nh seed))) = ok /\
+    view_at (fst (wstep true H w (OInit r b nbits nh seed))) r b s0
+            (skipn (length (init_image seed nh (round_cap nbits))) (b_data be)) /\
+    good s0 /\ f_nh (s_f s0) <> 0.
+  Proof.
+    intros Hb Hc Hlen Hnh Hseed s0.
+    unfold ctor_ok in Hc. apply andb_prop in Hc. destruct Hc as [Hc Hmax]. apply andb_prop in Hc. destruct Hc as [Hn0 Hb0].
+    apply negb_true_iff in Hn0, Hb0. apply N.eqb_neq in Hn0, Hb0. apply N.leb_le in Hmax.
+    assert (Hmb : MAX_BITS + 63 < two64) by reflexivity.
+    destruct (round_cap_props nbits ltac:(lia)) as (R1 & R2 & R3).
+    assert (Hcfg : cfg_ok (s_f s0)).
+    { unfold cfg_ok, s0. cbn [s_f f_nh f_seed f_cap]. repeat split; try assumption; [lia|].
+      assert (MAX_BITS + 64 < 2 ^ 35) by reflexivity. lia. }
+    split; [|split; [|split]].
+    - unfold wstep. rewrite Hb. unfold ctor_ok.
+      apply N.eqb_neq in Hn0, Hb0. apply N.leb_le in Hmax. rewrite Hn0, Hb0, Hmax. cbn [negb andb].
+      apply N.ltb_ge in Hlen. rewrite Hlen. reflexivity.
+    - unfold wstep. rewrite Hb. unfold ctor_ok.
+      apply N.eqb_neq in Hn0, Hb0. apply N.leb_le in Hmax. rewrite Hn0, Hb0, Hmax. cbn [negb andb].
+      apply N.ltb_ge in Hlen. rewrite Hlen. cbn [negb fst].
+      eexists. eexists. cbn [w_f w_b]. split; [apply reg_get_set_same|]. split; [reflexivity|]. split; [reflexivity|].
+      split; [apply reg_get_set_same|]. cbn [b_data]. unfold overlay.
+      rewrite (init_image_eq seed nh (round_cap nbits) (Some b) R3). reflexivity.
+    - unfold good. split; [exact Hcfg|]. split; [reflexivity|]. split; [apply fresh_inv|]. split; [apply fresh_minv|reflexivity].
+    - exact Hn0.
+  Qed.
+
+  (* from the constructor on: initialize_by_size over ANY block that is large enough, then ANY history through the view *)
+  Theorem world_nfn_from_init w r b be nbits nh seed pre ins post x :
+    reg_get (w_b w) b = Some be -> ctor_ok nbits nh = true ->
+    size_for (round_cap nbits) <= N.of_nat (length (b_data be)) -> nh < 2 ^ 16 -> seed < 2 ^ 64 ->
+    Forall lop_ok (pre ++ ins :: post) -> linserts ins x -> Forall lmonotone post ->
+    let w0 := fst (wstep true H w (OInit r b nbits nh seed)) in
+    let w1 := wrunL H r (pre ++ ins :: post) w0 in
+    fst (snd (wstep true H w1 (OQuery r x))) = [1%Z] /\
+    (forall r2 writable,
+       fst (snd (wstep true H w1 (OWrap r2 b writable))) = ok /\
+       fst (snd (wstep true H (fst (wstep true H w1 (OWrap r2 b writable))) (OQuery r2 x))) = [1%Z]) /\
+    (forall r2 stream,
+       fst (snd (wstep true H w1 (ODeser r2 b stream))) = ok /\
+       fst (snd (wstep true H (fst (wstep true H w1 (ODeser r2 b stream))) (OQuery r2 x))) = [1%Z]).
+  Proof.
+    intros Hb Hc Hlen Hnh Hseed Hok Hins Hpost w0 w1.
+    destruct (init_view w r b be nbits nh seed Hb Hc Hlen Hnh Hseed) as (_ & Hv & Hg & Hn).
+    exact (world_nfn_memory H w0 r b _ _ pre ins post x Hv Hg Hn Hok Hins Hpost).
+  Qed.
+End Bridge3.
+
+(* ------------------------------------------------------------------ *)
+(* the protocol step refines the object-level step: an OWNED filter     *)
+(* ------------------------------------------------------------------ *)
+
+(* register [r] holds an owned filter whose cached fields and bit array are those of the object [s] *)
+Definition owned_at (w : world) (r : Z) (s : cst) : Prop :=
+  exists fe, reg_get (w_f w) r = Some fe /\ e_f fe = f_setbits (s_f s) (s_bits s) /\ f_mem (s_f s) = None.
+
+Definition goodo (s : cst) : Prop :=
+  cfg_ok (s_f s) /\ f_ro (s_f s) = false /\ inv (f_cap (s_f s)) s.
+
+Lemma fin_grow_owned w r s fe e0 add code hz rc out :
+  f_mem (s_f s) = None -> fixed_fields (s_f s) (x_f e0) ->
+  owned_at (fst (fin_grow w r fe (mkE (f_setbits (x_f e0) (s_bits s)) (x_bits e0) (x_memw e0)) add code hz rc out)) r
+           (apply_eff s e0) /\
+  snd (fin_grow w r fe (mkE (f_setbits (x_f e0) (s_bits s)) (x_bits e0) (x_memw e0)) add code hz rc out) = out.
+Proof.
+  intros Hm (_ & _ & _ & _ & F5).
+  assert (Hm' : f_mem (x_f e0) = None) by congruence.
+  unfold fin_grow, commit. cbn [x_f x_bits x_memw]. cbn [f_setbits f_mem]. rewrite Hm'.
+  unfold ghost_grow. cbn [f_setbits f_mem]. rewrite Hm'. cbn [fst snd]. split; [|reflexivity].
+  eexists. cbn [w_f]. split; [apply reg_get_set_same|]. split; [reflexivity|exact Hm'].
+Qed.
+
+Lemma fin_clear_owned w r s fe e0 out :
+  f_mem (s_f s) = None -> fixed_fields (s_f s) (x_f e0) ->
+  owned_at (fst (fin_clear w r fe (mkE (f_setbits (x_f e0) (s_bits s)) (x_bits e0) (x_memw e0)) out)) r (apply_eff s e0) /\
+  snd (fin_clear w r fe (mkE (f_setbits (x_f e0) (s_bits s)) (x_bits e0) (x_memw e0)) out) = out.
+Proof.
+  intros Hm (_ & _ & _ & _ & F5).
+  assert (Hm' : f_mem (x_f e0) = None) by congruence.
+  unfold fin_clear, commit. cbn [x_f x_bits x_memw]. cbn [f_setbits f_mem]. rewrite Hm'.
+  unfold ghost_clear. cbn [f_setbits f_mem]. rewrite Hm'. cbn [fst snd]. split; [|reflexivity].
+  eexists. cbn [w_f]. split; [apply reg_get_set_same|]. split; [reflexivity|exact Hm'].
+Qed.
+
+Section BridgeOwned.
+  Variable H : list N -> N -> N.
+
+  Lemma indices_setbits f b : indices_of H (f_setbits f b) = indices_of H f.
+  Proof. reflexivity. Qed.
+
+  Lemma wstep_local_owned w r s o :
+    owned_at w r s -> f_ro (s_f s) = false -> lop_ok o ->
+    owned_at (fst (wstep true H w (lop_wop r o))) r (frun true (indices_of H (s_f s)) (lop_fop o) s).
+  Proof.
+    intros (fe & Hr & Hf & Hm) Hro Hok.
+    assert (Hv : owned_at w r s) by (exists fe; repeat split; assumption).
+    assert (Hbits : bits_of w (f_setbits (s_f s) (s_bits s)) = s_bits s).
+    { unfold bits_of. cbn [f_setbits f_mem]. now rewrite Hm. }
+    destruct o as [x|x|x| | |]; cbn [lop_wop lop_fop frun fold_left fstep lop_ok] in *; unfold wstep; rewrite Hr, Hf, ?Hbits.
+    - destruct x as [|x0 xt]; [congruence|]. rewrite indices_setbits.
+      unfold core_update. cbn [f_setbits f_ro]. rewrite Hro.
+      apply (fin_grow_owned w r s fe
+               (mkE (f_cache (s_f s) true (f_cnt (s_f s))) (set_bits (s_bits s) (indices_of H (s_f s) (x0 :: xt)))
+                    (memw_of (s_f s) DIRTY))); [assumption|apply fixed_cache].
+    - destruct x as [|x0 xt]; [congruence|]. rewrite indices_setbits.
+      set (l := indices_of H (s_f s) (x0 :: xt)).
+      unfold core_qau. cbn [f_setbits f_ro f_cnt f_dirty]. rewrite Hro.
+      destruct (qau_loop l (s_bits s) (f_cnt (s_f s)) true) as [[b' c'] e'].
+      destruct l as [|i t].
+      + apply (fin_grow_owned w r s fe (mkE (s_f s) (s_bits s) None)); [assumption|apply fixed_refl].
+      + destruct (true && f_dirty (s_f s)).
+        * apply (fin_grow_owned w r s fe (mkE (s_f s) b' None)); [assumption|apply fixed_refl].
+        * apply (fin_grow_owned w r s fe (upd_cnt (s_f s) b' c')); [assumption|apply fixed_cache].
+    - destruct x as [|x0 xt]; [congruence|]. cbn [fst]. exact Hv.
+    - unfold core_invert. cbn [f_setbits f_ro f_cap]. rewrite Hro. cbn [andb].
+      apply (fin_clear_owned w r s fe
+               (upd_cnt (s_f s) (N.lxor (s_bits s) (N.ones (f_cap (s_f s))))
+                        (popcount (N.lxor (s_bits s) (N.ones (f_cap (s_f s))))))); [assumption|apply fixed_cache].
+    - unfold core_reset. cbn [f_setbits f_ro]. rewrite Hro.
+      apply (fin_clear_owned w r s fe (upd_cnt (s_f s) 0 0)); [assumption|apply fixed_cache].
+    - cbn [fst]. eexists. cbn [w_f]. split; [apply reg_get_set_same|]. cbn [e_f s_f s_bits].
+      unfold core_bits_used. cbn [f_setbits f_dirty]. destruct (f_dirty (s_f s)); split; try reflexivity; assumption.
+  Qed.
+End BridgeOwned.
+
+Lemma reg_get_set_other {A} (rs : list (Z * A)) r r2 v : r2 <> r -> reg_get (reg_set rs r v) r2 = reg_get rs r2.
+Proof.
+  intros Hne. unfold reg_set. cbn [reg_get]. destruct (Z.eqb_spec r r2); [congruence|].
+  induction rs as [|[k a] t IH]; [reflexivity|]. cbn [reg_del reg_get].
+  destruct (Z.eqb_spec k r).
+  - subst k. destruct (Z.eqb_spec r r2); [congruence|exact IH].
+  - cbn [reg_get]. destruct (Z.eqb_spec k r2); [reflexivity|exact IH].
+Qed.
+
+Section BridgeOwned2.
+  Variable H : list N -> N -> N.
+
+  Lemma goodo_frun idx s ops :
+    (forall x i, In i (idx x) -> i < f_cap (s_f s)) -> goodo s -> Forall (op_ok (f_cap (s_f s))) ops ->
+    goodo (frun true idx ops s).
+  Proof.
+    intros Hidx (Hc & Hro & Hi) Hok.
+    destruct (frun_fixed true idx ops s) as (F1 & F2 & F3 & F4 & F5).
+    assert (Hc64 : f_cap (s_f s) < two64).
+    { destruct Hc as (_ & _ & _ & _ & Hc). eapply N.lt_trans; [exact Hc|reflexivity]. }
+    unfold goodo. rewrite F3. split; [|split].
+    - unfold cfg_ok in *. now rewrite F1, F2, F3.
+    - congruence.
+    - apply (inv_frun true idx (f_cap (s_f s)) Hc64 Hidx); [assumption|assumption|now left].
+  Qed.
+
+  Lemma wrun_local_owned r ops : forall w s,
+    owned_at w r s -> f_ro (s_f s) = false -> Forall lop_ok ops ->
+    owned_at (wrunL H r ops w) r (frun true (indices_of H (s_f s)) (lfops ops) s).
+  Proof.
+    induction ops as [|o t IH]; intros w s Hv Hro Hok; [exact Hv|].
+    inversion Hok as [|? ? Ho Ht]; subst.
+    unfold wrunL, lfops. cbn [fold_left map concat]. rewrite frun_app.
+    fold (wrunL H r t (fst (wstep true H w (lop_wop r o)))). fold (lfops t).
+    set (idx := indices_of H (s_f s)).
+    set (s1 := frun true idx (lop_fop o) s).
+    assert (Hv1 : owned_at (fst (wstep true H w (lop_wop r o))) r s1) by (apply wstep_local_owned; assumption).
+    destruct (frun_fixed true idx (lop_fop o) s) as (F1 & F2 & F3 & F4 & _). fold s1 in F1, F2, F3, F4.
+    assert (E : indices_of H (s_f s1) = idx) by (apply indices_of_fixed; assumption).
+    specialize (IH _ s1 Hv1 ltac:(congruence) Ht). rewrite E in IH. exact IH.
+  Qed.
+
+  (* everything the protocol-level theorems below need about the state after the history *)
+  Lemma owned_setup w r s pre ins post x :
+    owned_at w r s -> goodo s -> f_nh (s_f s) <> 0 ->
+    Forall lop_ok (pre ++ ins :: post) -> linserts ins x -> Forall lmonotone post ->
+    let idx := indices_of H (s_f s) in
+    let cap := f_cap (s_f s) in
+    exists s1, owned_at (wrunL H r (pre ++ ins :: post) w) r s1 /\ goodo s1 /\
+               f_seed (s_f s1) = f_seed (s_f s) /\ f_nh (s_f s1) = f_nh (s_f s) /\ f_cap (s_f s1) = cap /\
+               x <> [] /\ idx x <> [] /\ (forall y i, In i (idx y) -> i < cap) /\ cap < two64 /\
+               all_set (s_bits s1) (idx x) = true /\
+               (forall v, view_of idx cap s1 v -> squery idx v x = true).
+  Proof.
+    intros Hv Hg Hn Hok Hins Hpost idx cap.
+    pose proof (wrun_local_owned r (pre ++ ins :: post) w s Hv (proj1 (proj2 Hg)) Hok) as Hv1. fold idx in Hv1.
+    rewrite lfops_app in Hv1. change (lfops (ins :: post)) with (lop_fop ins ++ lfops post) in Hv1.
+    assert (Hx : x <> []).
+    { apply Forall_app in Hok. destruct Hok as [_ Hok]. inversion Hok as [|? ? Ho _]; subst.
+      destruct Hins as [-> | ->]; exact Ho. }
+    assert (Hfi : exists fi, lop_fop ins = [fi] /\ inserts fi x).
+    { destruct Hins as [-> | ->]; eexists; (split; [reflexivity|]); [now left|now right]. }
+    destruct Hfi as (fi & Efi & Hfi). rewrite Efi in Hv1. cbn [app] in Hv1.
+    assert (Hc64 : cap < two64).
+    { destruct Hg as ((_ & _ & _ & _ & Hc) & _). eapply N.lt_trans; [exact Hc|reflexivity]. }
+    assert (Hidx : forall y i, In i (idx y) -> i < cap) by (intros y i; apply indices_lt; apply Hg).
+    assert (Hne : idx x <> []) by now apply indices_nonempty.
+    assert (Hokf : Forall (op_ok cap) (lfops pre ++ fi :: lfops post)).
+    { rewrite <- (app_nil_l (lfops post)). change (fi :: [] ++ lfops post) with ([fi] ++ lfops post).
+      rewrite <- Efi. change (lop_fop ins ++ lfops post) with (lfops (ins :: post)). rewrite <- lfops_app.
+      apply lfops_op_ok. }
+    exists (frun true idx (lfops pre ++ fi :: lfops post) s).
+    destruct (frun_fixed true idx (lfops pre ++ fi :: lfops post) s) as (F1 & F2 & F3 & _).
+    split; [exact Hv1|]. split; [now apply goodo_frun|].
+    repeat (split; [assumption|]).
+    split.
+    - apply nfn_bits; [apply Hg|assumption|now apply lfops_monotone].
+    - intros v Hvw. apply (nfn_every_view idx cap Hc64 Hidx s (lfops pre) fi (lfops post) x v); try assumption.
+      + apply Hg.
+      + apply Hg.
+      + now apply lfops_monotone.
+  Qed.
+
+  (* the filter itself and its copies / moves *)
+  Theorem world_nfn_owned_copy w r s pre ins post x :
+    owned_at w r s -> goodo s -> f_nh (s_f s) <> 0 ->
+    Forall lop_ok (pre ++ ins :: post) -> linserts ins x -> Forall lmonotone post ->
+    let w1 := wrunL H r (pre ++ ins :: post) w in
+    fst (snd (wstep true H w1 (OQuery r x))) = [1%Z] /\
+    (forall r2 variant, r2 <> r ->
+       fst (snd (wstep true H w1 (OCopy r2 r variant))) = ok /\
+       fst (snd (wstep true H (fst (wstep true H w1 (OCopy r2 r variant))) (OQuery r2 x))) = [1%Z]).
+  Proof.
+    intros Hv Hg Hn Hok Hins Hpost w1.
+    destruct (owned_setup w r s pre ins post x Hv Hg Hn Hok Hins Hpost)
+      as (s1 & (fe & Hr & Hf & Hm) & Hg1 & F1 & F2 & F3 & Hx & Hne & Hidx & Hc64 & Hall & Hviews).
+    fold w1 in Hr.
+    set (idx := indices_of H (s_f s)) in *.
+    assert (Eidx : indices_of H (f_setbits (s_f s1) (s_bits s1)) = idx) by (apply indices_of_fixed; assumption).
+    assert (Hq : forall w', reg_get (w_f w') = reg_get (w_f w') -> forall r', reg_get (w_f w') r' = Some fe ->
+                 fst (snd (wstep true H w' (OQuery r' x))) = [1%Z]).
+    { intros w' _ r' Hr'. unfold wstep. rewrite Hr'. destruct x as [|x0 xt]; [congruence|]. cbn [fst snd].
+      rewrite Hf, Eidx. unfold bits_of. cbn [f_setbits f_mem f_bits]. rewrite Hm.
+      change (core_query (f_setbits (s_f s1) (s_bits s1)) (s_bits s1) (idx (x0 :: xt)))
+        with (squery idx s1 (x0 :: xt)).
+      rewrite (Hviews s1); [reflexivity|]. now apply V_copy. }
+    split; [now apply Hq|].
+    intros r2 variant Hne2. unfold wstep at 1 3. rewrite Hr.
+    destruct ((variant =? 2)%Z || (variant =? 3)%Z).
+    - destruct (Z.eqb_spec r r2); [congruence|]. cbn [fst snd]. split; [reflexivity|].
+      apply Hq; [reflexivity|]. cbn [w_f]. unfold reg_set. cbn [reg_del].
+      destruct (Z.eqb_spec r2 r); [congruence|]. cbn [reg_get]. now rewrite Z.eqb_refl.
+    - cbn [fst snd]. split; [reflexivity|]. apply Hq; [reflexivity|]. cbn [w_f]. apply reg_get_set_same.
+  Qed.
+End BridgeOwned2.
+
+Section BridgeOwned3.
+  Variable H : list N -> N -> N.
+
+  Lemma query_owned w r s x :
+    owned_at w r s -> x <> [] ->
+    fst (snd (wstep true H w (OQuery r x))) = [bz (squery (indices_of H (s_f s)) s x)].
+  Proof.
+    intros (fe & Hr & Hf & Hm) Hx. unfold wstep. rewrite Hr. destruct x as [|x0 xt]; [congruence|]. cbn [fst snd].
+    rewrite Hf. unfold bits_of. cbn [f_setbits f_mem f_bits]. rewrite Hm. reflexivity.
+  Qed.
+
+  Lemma ser_cnt_bound s : goodo s -> ser_cnt (s_f s) < 2 ^ 64.
+  Proof.
+    intros (Hc & _ & (_ & Hr & Hcache)). unfold ser_cnt. destruct (f_dirty (s_f s)) eqn:Hd; [reflexivity|].
+    destruct Hcache as [Hcache|Hcache]; [congruence|]. rewrite Hcache.
+    eapply N.le_lt_trans; [apply (in_range_popcount _ _ Hr)|].
+    destruct Hc as (_ & _ & _ & _ & Hc). eapply N.lt_trans; [exact Hc|reflexivity].
+  Qed.
+
+  (* serialize into a block, then deserialize (bytes / stream) or wrap (read-only / writable) the block *)
+  Theorem world_nfn_owned_serialize w r s pre ins post x b be :
+    owned_at w r s -> goodo s -> f_nh (s_f s) <> 0 ->
+    Forall lop_ok (pre ++ ins :: post) -> linserts ins x -> Forall lmonotone post ->
+    let w1 := wrunL H r (pre ++ ins :: post) w in
+    reg_get (w_b w1) b = Some be -> (32 + cap_bytes (f_cap (s_f s)) <= length (b_data be))%nat ->
+    let w2 := fst (wstep true H w1 (OSer r b)) in
+    fst (snd (wstep true H w1 (OSer r b))) = [nz (32 + cap_bytes (f_cap (s_f s)))] /\
+    (forall r2 stream,
+       fst (snd (wstep true H w2 (ODeser r2 b stream))) = ok /\
+       fst (snd (wstep true H (fst (wstep true H w2 (ODeser r2 b stream))) (OQuery r2 x))) = [1%Z]) /\
+    (forall r2 writable,
+       fst (snd (wstep true H w2 (OWrap r2 b writable))) = ok /\
+       fst (snd (wstep true H (fst (wstep true H w2 (OWrap r2 b writable))) (OQuery r2 x))) = [1%Z]).
+  Proof.
+    intros Hv Hg Hn Hok Hins Hpost w1 Hb Hlen w2.
+    destruct (owned_setup H w r s pre ins post x Hv Hg Hn Hok Hins Hpost)
+      as (s1 & (fe & Hr & Hf & Hm) & Hg1 & F1 & F2 & F3 & Hx & Hne & Hidx & Hc64 & Hall & Hviews).
+    fold w1 in Hr.
+    set (idx := indices_of H (s_f s)) in *. set (cap := f_cap (s_f s)) in *.
+    assert (Hq : squery idx s1 x = true) by (apply Hviews; now apply V_copy).
+    assert (Hemp : is_empty (s_f s1) = false).
+    { rewrite squery_spec in Hq. apply andb_prop in Hq. destruct Hq as [Hq _]. now destruct (is_empty (s_f s1)). }
+    pose proof (ser_cnt_bound s1 Hg1) as Hsc.
+    destruct Hg1 as (Hc1 & Hro1 & Hi1).
+    assert (Hrng : in_range (s_bits s1) (f_cap (s_f s1))) by apply Hi1.
+    set (img := image (s_f s1) (ser_cnt (s_f s1)) (s_bits s1)).
+    assert (Himg : serialize (f_setbits (s_f s1) (s_bits s1)) (s_bits s1) = img).
+    { change (serialize (f_setbits (s_f s1) (s_bits s1)) (s_bits s1)) with (serialize (s_f s1) (s_bits s1)).
+      now apply serialize_nonempty. }
+    assert (Hil : length img = (32 + cap_bytes cap)%nat) by (unfold img; rewrite image_length, F3; reflexivity).
+    assert (Hbo : bits_of w1 (f_setbits (s_f s1) (s_bits s1)) = s_bits s1).
+    { unfold bits_of. cbn [f_setbits f_mem f_bits]. now rewrite Hm. }
+    set (junk := skipn (length img) (b_data be)).
+    assert (Ew2 : w2 = mkW (w_f w1) (reg_set (w_b w1) b
+                    (mkBE (img ++ junk) (emust (w_b w1) fe) (b_epoch be + 1)%Z (e_haz fe) (b_gen be + 1)%Z (b_mut be + 1)%Z))
+            /\ fst (snd (wstep true H w1 (OSer r b))) = [nz (32 + cap_bytes cap)]).
+    { unfold w2, wstep. rewrite Hr, Hb, Hf, Hbo, Himg, Hil.
+      destruct (Nat.ltb_spec (length (b_data be)) (32 + cap_bytes cap)) as [Hlt|Hge]; [exfalso; exact (proj1 (Nat.lt_nge _ _) Hlt Hlen)|].
+      cbn [fst snd]. split; reflexivity. }
+    destruct Ew2 as [Ew2 ER]. split; [exact ER|]. rewrite Ew2.
+    assert (Eidx : forall g, f_seed g = f_seed (s_f s1) -> f_nh g = f_nh (s_f s1) -> f_cap g = f_cap (s_f s1) ->
+                             indices_of H g = idx).
+    { intros g A B C. apply indices_of_fixed; [congruence|congruence|rewrite C; exact F3]. }
+    split.
+    - intros r2 stream. unfold wstep at 1 3. cbn [w_b w_f]. rewrite reg_get_set_same. cbn [b_data].
+      unfold img. rewrite <- (serialize_nonempty _ _ Hemp).
+      rewrite (deser_serialize (s_f s1) (s_bits s1) junk stream Hc1 Hrng Hemp Hsc). cbn [fst snd].
+      split; [reflexivity|].
+      unfold wstep. cbn [w_f w_b]. rewrite reg_get_set_same. destruct x as [|x0 xt]; [congruence|]. cbn [fst snd e_f].
+      match goal with |- context [indices_of H ?g] => rewrite (Eidx g eq_refl eq_refl eq_refl) end. unfold bits_of. cbn [f_mem f_bits].
+      change (core_query _ (s_bits s1) (idx (x0 :: xt))) with (squery idx (deser_view (ser_img s1)) (x0 :: xt)).
+      rewrite (Hviews (deser_view (ser_img s1))); [reflexivity|apply V_serdes].
+    - intros r2 writable. unfold wstep at 1 3. cbn [w_b w_f]. rewrite reg_get_set_same. cbn [b_data].
+      unfold img. rewrite <- (serialize_nonempty _ _ Hemp).
+      rewrite (wrap_serialize (s_f s1) (s_bits s1) junk b writable Hc1 Hrng Hemp Hsc). cbn [is_view f_mem fst snd].
+      split; [reflexivity|].
+      unfold wstep. cbn [w_f w_b]. rewrite reg_get_set_same. destruct x as [|x0 xt]; [congruence|]. cbn [fst snd e_f].
+      match goal with |- context [indices_of H ?g] => rewrite (Eidx g eq_refl eq_refl eq_refl) end. unfold bits_of. cbn [f_mem f_cap w_b]. rewrite reg_get_set_same. cbn [b_data].
+      rewrite (serialize_nonempty _ _ Hemp).
+      rewrite (rd_image_bits (s_f s1) (ser_cnt (s_f s1)) (s_bits s1) junk Hc1 Hsc Hrng).
+      change (core_query _ (s_bits s1) (idx (x0 :: xt)))
+        with (squery idx (wrap_view (ser_img s1) (negb writable)) (x0 :: xt)).
+      rewrite (Hviews (wrap_view (ser_img s1) (negb writable))); [reflexivity|apply V_serwrap].
+  Qed.
+
+  (* union_with into ANY other compatible owned filter (any state [t]) *)
+  Theorem world_nfn_owned_union w r s pre ins post x :
+    owned_at w r s -> goodo s -> f_nh (s_f s) <> 0 ->
+    Forall lop_ok (pre ++ ins :: post) -> linserts ins x -> Forall lmonotone post ->
+    let w1 := wrunL H r (pre ++ ins :: post) w in
+    forall r3 t, r3 <> r -> owned_at w1 r3 t -> goodo t ->
+      f_seed (s_f t) = f_seed (s_f s) -> f_nh (s_f t) = f_nh (s_f s) -> f_cap (s_f t) = f_cap (s_f s) ->
+      fst (snd (wstep true H w1 (OUnion r3 r))) = ok /\
+      fst (snd (wstep true H (fst (wstep true H w1 (OUnion r3 r))) (OQuery r3 x))) = [1%Z].
+  Proof.
+    intros Hv Hg Hn Hok Hins Hpost w1 r3 t Hne3 Ht Hgt T1 T2 T3.
+    destruct (owned_setup H w r s pre ins post x Hv Hg Hn Hok Hins Hpost)
+      as (s1 & (fe & Hr & Hf & Hm) & Hg1 & F1 & F2 & F3 & Hx & Hne & Hidx & Hc64 & Hall & Hviews).
+    fold w1 in Hr.
+    set (idx := indices_of H (s_f s)) in *. set (cap := f_cap (s_f s)) in *.
+    destruct Ht as (fe3 & Hr3 & Hf3 & Hm3).
+    destruct Hgt as (Hct & Hrot & Hit).
+    set (e0 := upd_cnt (s_f t) (N.lor (s_bits t) (s_bits s1)) (popcount (N.lor (s_bits t) (s_bits s1)))).
+    assert (Hstep : owned_at (fst (wstep true H w1 (OUnion r3 r))) r3 (apply_eff t e0) /\
+                    snd (wstep true H w1 (OUnion r3 r)) = (ok, [bz (f_ro (e_f fe3)); 0%Z])).
+    { unfold wstep. rewrite Hr3, Hr, Hf3, Hf.
+      assert (Hcomp : compatible (f_setbits (s_f t) (s_bits t)) (f_setbits (s_f s1) (s_bits s1)) = true).
+      { unfold compatible. cbn [f_setbits f_seed f_nh f_cap]. rewrite T1, T2, T3, F1, F2, F3. now rewrite !N.eqb_refl. }
+      rewrite Hcomp. unfold bits_of. cbn [f_setbits f_mem f_bits]. rewrite Hm3, Hm.
+      unfold core_union. cbn [f_setbits f_ro]. rewrite Hrot. cbn [andb].
+      apply (fin_grow_owned w1 r3 t fe3 e0); [assumption|apply fixed_cache]. }
+    destruct Hstep as [Hown Hout]. rewrite Hout. cbn [fst snd]. split; [reflexivity|].
+    rewrite (query_owned (fst (wstep true H w1 (OUnion r3 r))) r3 (apply_eff t e0) x Hown Hx).
+    assert (Eidx : indices_of H (s_f (apply_eff t e0)) = idx) by (apply indices_of_fixed; assumption).
+    rewrite Eidx.
+    assert (Ev : apply_eff t e0 = frun true idx [FUnion (s_bits s1)] t).
+    { cbn [frun fold_left fstep]. unfold core_union. rewrite Hrot. reflexivity. }
+    rewrite Ev, (Hviews (frun true idx [FUnion (s_bits s1)] t)); [reflexivity|].
+    apply V_union; [|assumption|constructor|constructor]. first [rewrite <- T3 | unfold cap; rewrite <- T3]; exact Hit.
+  Qed.
+End BridgeOwned3.
+
+(* builder::create_by_size establishes the hypotheses of the three theorems above *)
+Lemma new_view (H : list N -> N -> N) w r nbits nh seed :
+  ctor_ok nbits nh = true -> nh < 2 ^ 16 -> seed < 2 ^ 64 ->
+  let s0 := mkS (mkF seed nh (round_cap nbits) false false 0 None 0) 0 0 in
+  fst (snd (wstep true H w (ONew r nbits nh seed))) = ok /\
+  owned_at (fst (wstep true H w (ONew r nbits nh seed))) r s0 /\ goodo s0 /\ f_nh (s_f s0) <> 0.
+Proof.
+  intros Hc Hnh Hseed s0. unfold wstep, new_owned. rewrite Hc. cbn [fst snd].
+  unfold ctor_ok in Hc. apply andb_prop in Hc. destruct Hc as [Hc Hmax]. apply andb_prop in Hc. destruct Hc as [Hn0 Hb0].
+  apply negb_true_iff in Hn0, Hb0. apply N.eqb_neq in Hn0, Hb0. apply N.leb_le in Hmax.
+  assert (Hmb : MAX_BITS + 63 < two64) by reflexivity.
+  destruct (round_cap_props nbits ltac:(lia)) as (R1 & R2 & R3).
+  split; [reflexivity|]. split; [|split].
+  - eexists. cbn [w_f]. split; [apply reg_get_set_same|]. split; reflexivity.
+  - unfold goodo, s0. cbn [s_f f_cap f_ro]. split; [|split; [reflexivity|apply fresh_inv]].
+    unfold cfg_ok. cbn [f_nh f_seed f_cap]. repeat split; try assumption; [lia|].
+    assert (MAX_BITS + 64 < 2 ^ 35) by reflexivity. lia.
+  - exact Hn0.
 Qed.
